@@ -78,7 +78,7 @@ def keyOK (uc : UC) (k : Bytes) : Bool := kvScan uc true 0 (k ++ [58]) == .found
 end the line), no leading blank or tab (the reader strips them) — and not ending in CR (the line
 scanner strips one CR: N1). -/
 def valueOKnoCR (v : Bytes) : Bool :=
-  !v.isEmpty && !v.contains 10 && !(v.head?.map isBlank).getD false
+  !v.isEmpty && !Bytes.hasByte v 10 && !(v.head?.map isBlank).getD false
 
 def endsCR (v : Bytes) : Bool := v.getLast? == some 13
 
@@ -92,7 +92,7 @@ def tokenOK (uc : UC) (t : Bytes) : Bool := takeField uc 0 (t ++ [32]) == (t, []
 key it knows) must be harmless: either `key` is a regular key (then it deletes a key the
 reader does not hold) or the reader ignores the line; and the key holds no LF. -/
 def internalKeyOK (O : Oracles) (k : Bytes) : Bool :=
-  !k.contains 10 &&
+  !Bytes.hasByte k 10 &&
     (keyOK O.uc k ||
       (!Bytes.hasPrefix (k ++ [58]) benchmarkPrefix && (isUnitLine O.uc (k ++ [58])).isNone &&
         (parseKeyValueLine O.uc (k ++ [58])).isNone))
@@ -123,7 +123,7 @@ def resOKnoCR (O : Oracles) (r : Res) : Bool :=
 tidied form of the unit as written (the reader recomputes it). -/
 def unitOK (O : Oracles) (u : UnitMeta) : Bool :=
   !u.origUnit.isEmpty && tokenOK O.uc u.origUnit &&
-    !u.key.isEmpty && !u.key.contains 61 && tokenOK O.uc (u.key ++ [61] ++ u.value) &&
+    !u.key.isEmpty && !Bytes.hasByte u.key 61 && tokenOK O.uc (u.key ++ [61] ++ u.value) &&
     u.unit == (O.tidy 0x3FF0000000000000 u.origUnit).2
 
 def recOKnoCR (O : Oracles) : Rec → Bool
